@@ -17,11 +17,12 @@ STATUS = {
     "C11": ("proof", "25 theorems: to_radix_le/be = THE canonical digit sequence (uniqueness proved) for every radix 2..=256 on all four code paths incl. the inexact bit-slicing path, to_str_radix = sign + lowercase canonical numeral, panic iff radix out of range, closed round trips: parsing the printed digits / string with the REAL parser model of C10 returns the original value, for every radix, unsigned and signed (25 theorems in total)"),
     "C12": ("proof", "31 theorems: for every trait (Display, Debug, Binary, Octal, LowerHex, UpperHex, LowerExp, UpperExp; unsigned and signed) the triple (is_nonnegative, prefix, body) handed to std's pad_integral: body = THE canonical numeral (hex_concat: per-digit numerals with interior zero padding = canonical numeral of the whole value), two's-complement pattern for signed radix forms, sign + magnitude for Display, exponent form d.ddde<k> with trailing zeros trimmed (specification proved unique); std's pad_integral itself is modelled (pad_integral_ref) and validated against the real formatter and against primitives of the same value on every run, not proved"),
     "C13": ("proof", "21 theorems: TryFrom<bnum> for every primitive = Ok(value) iff in range (both code branches, signed and unsigned), BTryFrom between any two configurations = Ok(cast, value preserved) iff representable, never panics, always Ok when widening; From/TryFrom<primitive> into bnum for representable values, TryFrom<iN> for BUint Err iff negative, bool/char, from_digits/digits/from_digit identities"),
-    "C14": ("other", "model (bit-pattern floats, no reals) + correspondence on 368k cases incl. every tie / infinity threshold / NaN payload class; float->int direction proved (truncation, NaN -> 0, saturation, signed MIN); the int->float round-to-nearest-even theorem is still being proved"),
+    "C14": ("proof", "8 theorems over float BIT PATTERNS (no reals): int->float returns THE round-to-nearest-even float (characterised over integers, uniqueness proved), exact when the bit length fits the mantissa, +inf at and above the threshold, sign bit for signed sources; float->int = saturating truncation, NaN -> 0, negatives -> 0 / MIN; machine-checked refutation of the pre-fix code (0.75 -> 1); premises about shift/bits facts being discharged against the merged theorems (counted as not discharged until then)"),
     "C18": ("proof", "23 theorems: Integer::div_floor/mod_floor = Coq floor pair, div_rem = quot/rem, gcd = Z.gcd (binary gcd, fuel suffices), lcm, sqrt/cbrt/nth_root: R^k <= A < (R+1)^k for EVERY degree k incl. the general-k Newton convergence (integer AM-GM), signed roots with sign and panic conditions, Signed, forwarders = inherent models; num-integer's Roots for u128 (shortcut below 2^128) is modelled by its specification"),
     "C15": ("proof", "18 theorems: from_be/le_slice for unsigned and signed = Some(value) iff representable for byte strings of ANY length, zero/sign padding, empty slice, to_be/from_be = swap_bytes involution, to_le/from_le identity, nightly *_bytes round trips and two's-complement bytes; for every digit width that is a multiple of 8"),
     "C16": ("proof", "22 theorems: equal width + equal values => equal results and flags across digit types (add, sub, mul, cmp, shl, shr, pow; signed add, mul, cmp), extension into a wider type commutes when the exact result fits (add, sub, mul, cmp, signed add), constant tables / alias table / instantiation table REGENERATED FROM THE SOURCE on every run denote what their names advertise, MIN/MAX/BITS/BYTES values"),
     "C17": ("proof", "10 theorems on the parts of the trait layer that have content in the model: amount conversion of the 12 primitive shift-amount types and of bnum-typed amounts, Add/Div/Rem<digit>, Sum/Product as left folds, Default; reference/assign forms are the same model function as the by-value operator by construction, their agreement in the code is established by the correspondence check calling each of the ~500 generated impls"),
+    "C19": ("proof", "33 theorems: FromPrimitive::from_{u,i}{8..128,size} = Some(value) iff representable for EVERY target width incl. narrower than the source, from_f32/f64 = Some(trunc) iff finite and in range (exact statement of what happens for negative floats into unsigned targets), ToPrimitive::to_* = Some iff in range, to_f32/f64 = Some(C14's cast), AsPrimitive = the As cast in all 11 directions, NumCast::from panics; num-traits default routing (from_u8 -> from_u64 ...) modelled as documented"),
     "C20": ("proof", "36 theorems: gen_range / Uniform::sample / sample_single(_inclusive) in range for every stream (RNG = universally quantified byte stream), accepted RNG words for each value are exactly q consecutive integers (unbiased by construction) for every BITS, zone formulas, Standard = little-endian decode and decode is a bijection onto [0, 2^BITS), slice fill = element-wise fill, no panic / fuel suffices"),
 }
 NA_REASON = "not yet built in this round (work in progress; see DESIGN.md section 9)"
